@@ -390,6 +390,8 @@ def t18_vsi(run, fx):
 
 
 def check(run, fx, tier, floors=True):
+    import zipalign
+    zipalign.rule_zip(run, fx, "T18-Z", select=(lambda b: b.file.startswith("src/cff")) if floors else None, floors=floors, floor_n=3)
     if floors or any(b.path.endswith("::visit_impl") for b in fx.bodies):
         t18_vsi(run, fx)
     t18_ops(run, fx, floors)
